@@ -959,6 +959,8 @@ def exercise_entry(T, EoN, entry, pool, seconds, refused_kw, quick=True):
 def _worker(a):
     (i, repo) = a
     os.environ['EON_REPO'] = repo
+    if os.environ.get('C19_TAB_CRASH') == str(i):      # self-test of the crash isolation
+        os.kill(os.getpid(), 11)
     T = load_translator()
     EoN = C.import_eon()
     pool = make_pool(EoN); seconds = make_seconds()
@@ -968,45 +970,51 @@ def _worker(a):
     return i, r
 
 
-def validate_tables(nproc=8, per_entry_timeout=60):
-    """returns (translator module, entries, results per entry, seconds).  Every entry runs in a worker process; a worker
-    that dies or hangs (a library call that crashes the interpreter) is reported for that entry instead of hanging the check"""
-    from concurrent.futures import ProcessPoolExecutor
-    from concurrent.futures.process import BrokenProcessPool
+def _child(i, conn):
+    try:
+        conn.send(_worker((i, C.REPO))[1])
+    except BaseException as e:
+        conn.send({'_error': '%s: %s' % (type(e).__name__, e)})
+    finally:
+        conn.close()
+
+
+def validate_tables(nproc=8, per_entry_timeout=90):
+    """returns (translator module, entries, results per entry, seconds).  Every entry runs in its OWN forked process (the
+    parent has the libraries imported, so a fork is cheap): a library call that crashes or hangs the interpreter loses that
+    entry only, and is reported for it."""
     import multiprocessing as mp
     t0 = time.time()
     T = load_translator()
     E = table_entries(T)
+    C.import_eon()
     ctx = mp.get_context('fork')
-    done, crashed = {}, {}
-
-    def pool_run(ids, workers, timeout):
-        """results of the entries ids; a dead worker breaks the pool: whatever is missing afterwards is returned as not done"""
-        ex = ProcessPoolExecutor(max_workers=workers, mp_context=ctx)
-        futs = {i: ex.submit(_worker, (i, C.REPO)) for i in ids}
-        err = {}
-        for i, f in futs.items():
-            try:
-                done[i] = f.result(timeout=timeout)[1]
-            except BrokenProcessPool:
-                err[i] = 'the worker process died'
-            except Exception as e:
-                err[i] = '%s: %s' % (type(e).__name__, e)
-        for p_ in list((getattr(ex, '_processes', None) or {}).values()):
-            try:
-                p_.kill()
-            except Exception:
-                pass
-        ex.shutdown(wait=False, cancel_futures=True)
-        return err
-
-    err = pool_run(list(range(len(E))), nproc, 180)
-    # a dead worker takes the whole pool with it: run what is missing one entry per pool, so that only the guilty entry is lost
-    for i in sorted(err):
-        if i not in done:
-            e1 = pool_run([i], 1, per_entry_timeout)
-            if i in e1:
-                crashed[i] = e1[i]
+    done, crashed, running, todo = {}, {}, {}, list(range(len(E)))
+    while todo or running:
+        while todo and len(running) < nproc:
+            i = todo.pop(0)
+            pc, cc = ctx.Pipe(duplex=False)
+            p = ctx.Process(target=_child, args=(i, cc))
+            p.start(); cc.close()
+            running[i] = (p, pc, time.time())
+        for i, (p, pc, ts) in list(running.items()):
+            if pc.poll(0):
+                try:
+                    r = pc.recv()
+                except EOFError:
+                    r = {'_error': 'the worker process died (exit code %s)' % p.exitcode}
+                p.join(5); pc.close(); del running[i]
+                if '_error' in r:
+                    crashed[i] = r['_error']
+                else:
+                    done[i] = r
+            elif not p.is_alive():
+                p.join(1); pc.close(); del running[i]
+                crashed[i] = 'the worker process died (exit code %s)' % p.exitcode
+            elif time.time() - ts > per_entry_timeout:
+                p.kill(); p.join(5); pc.close(); del running[i]
+                crashed[i] = 'timeout after %ds' % per_entry_timeout
+        time.sleep(0.005)
     res = []
     for i in range(len(E)):
         if i in done:
